@@ -20,19 +20,12 @@ Theorem c03_codec_roundtrip_absent : forall store : aff -> dbval -> dbval,
 Proof. exact codec_roundtrip_absent. Qed.
 Print Assumptions c03_codec_roundtrip_absent.
 
-(* "representable in the column type" (in range for the width, uint64 below 2^63) is accepted,
-   except by the unixtime serializer on unsigned fields ... *)
-Theorem c03_representable_accepted_partial : forall k v,
-  wfk k = true -> signed_unix k = true -> wtb k v = true -> in_range k v = true ->
+(* "representable in the column type" (in range for the width, uint64 below 2^63) is accepted *)
+Theorem c03_representable_accepted : forall k v,
+  wfk k = true -> wtb k v = true -> in_range k v = true ->
   exists d, enc k v = Some d.
 Proof. exact representable_enc. Qed.
-Print Assumptions c03_representable_accepted_partial.
-
-(* ... where the faithful model fails (reflect.Value.Int on a uint): known finding *)
-Theorem c03_representable_accepted_refuted :
-  exists k v, wfk k = true /\ wtb k v = true /\ in_range k v = true /\ enc k v = None.
-Proof. exists (KSer SUnix (KUint 64)), (GInt 5). repeat split. Qed.
-Print Assumptions c03_representable_accepted_refuted.
+Print Assumptions c03_representable_accepted.
 
 (* schema flattening: with distinct column names DBNames lists the fields in declaration order
    and every column looks up the field that declares it; embeddedPrefix preserves distinctness *)
